@@ -88,3 +88,74 @@ Fixpoint gen_pipe_hist (n : nat) (cs : ctxs) : Gen (list (exporter * N * bytes))
 Definition gen_pipe_case : Gen (list (exporter * N * bytes)) :=
   gdo n <- grange 5 30;
   gen_pipe_hist (N.to_nat n) [].
+
+(* C15: a sequential prologue announcing every template and sampling rate (no redefinitions), then a
+   workload of data-only messages, v5 datagrams (and sFlow datagrams added by the driver) *)
+Definition gen_data_only_set (ver : N) (c : ctx) : Gen aset :=
+  match data_of_ctx c with
+  | [] => gret (ATmpl [])
+  | e0 :: _ =>
+      gdo e <- gpick e0 (data_of_ctx c);
+      match e with
+      | CData id fs =>
+          let sz := min_size ver fs in
+          gdo n <- gen_nrec sz;
+          gdo recs <- glist (N.to_nat n) (gen_values fs);
+          gdo pad <- gen_pad sz;
+          gret (AData id fs recs pad)
+      | _ => gret (ATmpl [])
+      end
+  end.
+
+Definition gen_prologue_msg (ver dom : N) : Gen (amsg * ctx) :=
+  gdo n <- grange 1 3;
+  gdo ts <- glist (N.to_nat n) (fresh_fields ver);
+  let tl := combine (map (fun i => 256 + N.of_nat i) (seq 0 (N.to_nat n))) ts in
+  let c := map (fun t => CData (fst t) (snd t)) tl in
+  gdo sc <- gen_sampling ver [];
+  (* the sampling sets use id 256..261 for the options template: move it out of the way *)
+  gdo a <- gval 32; gdo b <- gval 32; gdo s <- gval 32;
+  let hdr := if ver =? 9 then [a; b; s; dom] else [b; s; dom] in
+  (* the announcement of a sampling rate, moved to template id 300 so that it shadows no data template *)
+  let reid (x : aset) : aset :=
+    match x with
+    | AOptTmpl [(_, so)] => AOptTmpl [(300, so)]
+    | AOptData _ sc' op' recs pad => AOptData 300 sc' op' recs pad
+    | y => y
+    end in
+  gret ({| aVer := ver; aHdr := hdr; aSets := ATmpl tl :: map reid (fst sc) |}, c).
+
+Fixpoint gen_workload (n : nat) (scopes : list (N * N * N * ctx)) : Gen (list (exporter * N * bytes)) :=
+  match n with
+  | O => gret []
+  | S k =>
+      gdo kind <- grand 8;
+      gdo tr <- gval 40;
+      gdo r <- gen_workload k scopes;
+      if kind =? 0 then
+        gdo d <- gen_v5_dgram;
+        gret ((nth 0 exporters {| eAddr := [10;0;0;1]; ePort := 2000 |}, tr, d) :: r)
+      else
+        gdo si <- grand (lenN scopes);
+        let '(ei, ver, dom, c) := nth (N.to_nat si) scopes (0, 9, 0, []) in
+        gdo ns <- grange 1 4;
+        gdo sets0 <- glist (N.to_nat ns) (gen_data_only_set ver c);
+        (* now and then the exporter re-announces its templates with the same layout *)
+        gdo re <- grand 6;
+        let again := ATmpl (flat_map (fun e => match e with CData id fs => [(id, fs)] | _ => [] end) c) in
+        let sets := if re =? 0 then again :: sets0 else sets0 in
+        gdo a <- gval 32; gdo b <- gval 32; gdo s <- gval 32;
+        let hdr := if ver =? 9 then [a; b; s; dom] else [b; s; dom] in
+        let m := {| aVer := ver; aHdr := hdr; aSets := sets |} in
+        gret ((nth (N.to_nat ei) exporters {| eAddr := [10;0;0;1]; ePort := 2000 |}, tr, encode_nf m) :: r)
+  end.
+
+Definition gen_c15_case : Gen (list (exporter * N * bytes) * list (exporter * N * bytes)) :=
+  let mk ei ver dom :=
+    gdo mc <- gen_prologue_msg ver dom;
+    gret ((nth (N.to_nat ei) exporters {| eAddr := [10;0;0;1]; ePort := 2000 |}, 1, encode_nf (fst mc)), (ei, ver, dom, snd mc)) in
+  gdo p0 <- mk 0 9 0; gdo p1 <- mk 1 10 1; gdo p2 <- mk 2 10 0; gdo p3 <- mk 3 9 4294967295;
+  let ps := [p0; p1; p2; p3] in
+  gdo n <- grange 20 60;
+  gdo w <- gen_workload (N.to_nat n) (map snd ps);
+  gret (map fst ps, w).
